@@ -79,6 +79,11 @@ CHI1_ALPHA = ("N", "CA", "CB", "CG", "CG1", "OG1", "SG")
 CHI1_PATTERNS = [["N", "CA", "CB", "CG"], ["N", "CA", "CB", "CG1"], ["N", "CA", "CB", "SG"], ["N", "CA", "CB", "OG"], ["N", "CA", "CB", "OG1"]]
 CHI2_ALPHA = ("CA", "CB", "CG", "CG1", "CD", "CD1", "SD")
 CHI2_PATTERNS = [["CA", "CB", "CG", "CD"], ["CA", "CB", "CG", "CD1"], ["CA", "CB", "CG1", "CD1"], ["CA", "CB", "CG", "OD1"], ["CA", "CB", "CG", "ND1"], ["CA", "CB", "CG", "SD"]]
+CHI3_ALPHA = ("CB", "CG", "CD", "NE", "CE", "OE1", "SD")
+CHI3_PATTERNS = [["CB", "CG", "CD", "NE"], ["CB", "CG", "CD", "CE"], ["CB", "CG", "CD", "OE1"], ["CB", "CG", "SD", "CE"]]
+CHI4_ALPHA = ("CG", "CD", "NE", "CZ", "CE", "NZ", "NH1")
+CHI4_PATTERNS = [["CG", "CD", "NE", "CZ"], ["CG", "CD", "CE", "NZ"]]
+CHI5_PATTERNS = [["CD", "NE", "CZ", "NH1"]]
 
 
 def _chi(f, alpha, patterns, bits, other_first):
@@ -115,6 +120,17 @@ def chi2_indices(b0: bool, b1: bool, b2: bool, b3: bool, b4: bool, b5: bool, b6:
     post: __return__
     """
     return _chi(_dih.indices_chi2, CHI2_ALPHA, CHI2_PATTERNS, (b0, b1, b2, b3, b4, b5, b6), other_first)
+
+
+def chi345_indices(which: int, b0: bool, b1: bool, b2: bool, b3: bool, b4: bool, b5: bool, b6: bool, other_first: bool) -> bool:
+    """
+    pre: 3 <= which <= 5
+    post: __return__
+    """
+    which = conc(which, 3, 5)
+    f, alpha, pats = {3: (_dih.indices_chi3, CHI3_ALPHA, CHI3_PATTERNS), 4: (_dih.indices_chi4, CHI4_ALPHA, CHI4_PATTERNS),
+                      5: (_dih.indices_chi5, CHI4_ALPHA, CHI5_PATTERNS)}[which]
+    return _chi(f, alpha, pats, (b0, b1, b2, b3, b4, b5, b6), other_first)
 
 
 # ------------------------------------------------------------------ dispatch
